@@ -223,3 +223,7 @@ func loadConstGlobal(addr *Term, elem types.Type, opt *Options) *Term {
 	}
 	return v
 }
+
+// ImmutableGlobal reports whether the unexported package-level variable g is written by its package
+// initializer only and holds a value without reference semantics.
+func ImmutableGlobal(g *ssa.Global) bool { return immutableGlobal(g) }
